@@ -63,6 +63,22 @@ def event_scenarios(tier, seed, prefix):
             sc["ops"] = [{"op": "integrate", "events": [{"kind": "state", "c": 0.3, "comp": 0, "s": 1.0}, {"kind": "state", "c": 0.3, "comp": 0, "s": 1e-3},
                                                         {"kind": "state", "c": 0.3, "comp": 0, "s": 50.0, "dir": 1}, {"kind": "state", "c": -0.5, "comp": 1, "s": 1.0}]}]
             scs.append(sc)
+    # times that are large compared with the step (epoch-like offsets): near a root the spacing of the representable times exceeds
+    # sqrt(eps) x step, so probes "a little to either side of the root" must not collapse onto the root (finding f35)
+    big = [(2.0 ** 27, 2.0 ** 27 + 3.0, "float64"), (2.0 ** 27 + 3.0, 2.0 ** 27, "float64"), (-2.0 ** 30, -2.0 ** 30 + 3.0, "float64"),
+           (3072.0, 3075.0, "float32"), (3075.0, 3072.0, "float32")]
+    for m in ["RK4", "RK45CK", "RK87"] + (["DOPRI45", "RK5", "ABAS5O6H", "CrankNicolson"] if thorough else []):
+        for (a, b, dty) in big:
+            if dty == "float32" and m not in ("RK4", "RK5", "ABAS5O6H"):
+                continue
+            sg = 1.0 if b > a else -1.0
+            sc = gen.with_tol(gen.base(m, a, b, 0.125))
+            sc["dtype"] = dty
+            sc["dense"] = bool(len(scs) % 2)
+            sc["ops"] = [{"op": "integrate", "events": [{"kind": "state", "c": 0.3, "comp": 0, "s": 1.0}, {"kind": "state", "c": 0.3, "comp": 0, "s": 1e3, "dir": -1},
+                                                        {"kind": "state", "c": -0.2, "comp": 1, "s": 1e-3, "dir": 1},
+                                                        {"kind": "time", "c": a + sg * 1.03125, "s": 1.0}]}]
+            scs.append(sc)
     # rational-solution problem: state event with a known true root along the exact trajectory
     for m in ["RK45CK", "DOPRI45", "RK87", "RadauIIA5"] + (["RK4", "RK108", "LobattoIIIC4"] if thorough else []):
         for c in (0.8, 0.5, 0.4):
